@@ -18,20 +18,34 @@ var c17Programs = []struct {
 	name    string
 	imports []string
 	class   string
+	// custom: the program registers its own SHA-256 (a wrapper exposing nothing but the hash.Hash methods) with
+	// crypto.RegisterHash - "after": in main's init, i.e. after the library's init; "before": in a helper package
+	// that is initialised before the library.
+	custom string
 }{
-	{"imports-nothing-else", nil, "nobody else registers SHA-256"},
-	{"imports-crypto-only", []string{"crypto"}, "nobody else registers SHA-256"},
-	{"imports-sha512", []string{"crypto/sha512"}, "nobody else registers SHA-256"},
-	{"imports-md5-crc32", []string{"crypto/md5", "hash/crc32"}, "nobody else registers SHA-256"},
-	{"imports-sha256", []string{"crypto/sha256"}, "someone else registers SHA-256"},
+	{"imports-nothing-else", nil, "nobody else registers SHA-256", ""},
+	{"imports-crypto-only", []string{"crypto"}, "nobody else registers SHA-256", ""},
+	{"imports-sha512", []string{"crypto/sha512"}, "nobody else registers SHA-256", ""},
+	{"imports-md5-crc32", []string{"crypto/md5", "hash/crc32"}, "nobody else registers SHA-256", ""},
+	{"imports-sha256", []string{"crypto/sha256"}, "someone else registers SHA-256", ""},
+	{"registers-minimal-sha256-after-library-init", nil, "the program registers its own SHA-256", "after"},
+	{"registers-minimal-sha256-before-library-init", nil, "the program registers its own SHA-256", "before"},
 }
+
+const c17Wrapper = `
+type onlyHash struct{ hash.Hash }
+
+func register() {
+	crypto.RegisterHash(crypto.SHA256, func() hash.Hash { return onlyHash{sha256.New()} })
+}
+`
 
 var c17Inputs = [][2]string{
 	{"", "QUUX-V01-CS02-with-secp256k1_XMD:SHA-256_SSWU_RO_"},
 	{"abcdef0123456789", "VERIF-C17-dst"},
 }
 
-func c17Source(imports []string) string {
+func c17Source(imports []string, custom string) string {
 	var b strings.Builder
 
 	b.WriteString("package main\n\nimport (\n\t\"encoding/hex\"\n\t\"fmt\"\n")
@@ -40,7 +54,20 @@ func c17Source(imports []string) string {
 		fmt.Fprintf(&b, "\t_ %q\n", i)
 	}
 
-	b.WriteString("\n\tsecp256k1 \"github.com/bytemare/secp256k1\"\n)\n\nfunc main() {\n")
+	switch custom {
+	case "after":
+		b.WriteString("\t\"crypto\"\n\t\"crypto/sha256\"\n\t\"hash\"\n")
+	case "before":
+		b.WriteString("\t_ \"verifprog/aaareg\"\n")
+	}
+
+	b.WriteString("\n\tsecp256k1 \"github.com/bytemare/secp256k1\"\n)\n")
+
+	if custom == "after" {
+		b.WriteString(c17Wrapper + "\nfunc init() { register() }\n")
+	}
+
+	b.WriteString("\nfunc main() {\n")
 
 	for _, in := range c17Inputs {
 		fmt.Fprintf(&b, "\tfmt.Println(hex.EncodeToString(secp256k1.HashToGroup([]byte(%q), []byte(%q)).Encode()))\n", in[0], in[1])
@@ -80,8 +107,20 @@ func c17Case(i int, work, src string) (key, detail string) {
 		return "tool", err.Error()
 	}
 
-	if err := os.WriteFile(filepath.Join(dir, "main.go"), []byte(c17Source(p.imports)), 0o644); err != nil {
+	if err := os.WriteFile(filepath.Join(dir, "main.go"), []byte(c17Source(p.imports, p.custom)), 0o644); err != nil {
 		return "tool", err.Error()
+	}
+
+	if p.custom == "before" {
+		// a package with no dependency on the library, imported first: its init runs before the library's
+		if err := os.MkdirAll(filepath.Join(dir, "aaareg"), 0o755); err != nil {
+			return "tool", err.Error()
+		}
+
+		src := "package aaareg\n\nimport (\n\t\"crypto\"\n\t\"crypto/sha256\"\n\t\"hash\"\n)\n" + c17Wrapper + "\nfunc init() { register() }\n"
+		if err := os.WriteFile(filepath.Join(dir, "aaareg", "reg.go"), []byte(src), 0o644); err != nil {
+			return "tool", err.Error()
+		}
 	}
 
 	build := exec.Command("go", "build", "-o", "prog", ".")
@@ -96,7 +135,7 @@ func c17Case(i int, work, src string) (key, detail string) {
 
 	if err != nil {
 		first := strings.SplitN(string(out), "\n", 2)[0]
-		return "hashing-fails-in-a-program-that-imports-only-this/" + strings.ReplaceAll(p.class, " ", "-"),
+		return "hashing-fails-in-program/" + strings.ReplaceAll(p.class, " ", "-"),
 			fmt.Sprintf("program %s (extra imports %v): %v: %s", p.name, p.imports, err, first)
 	}
 
@@ -123,7 +162,7 @@ func C17(r *ev.Report) {
 		src = "/repo"
 	}
 
-	r.Rule("plain (non-test) binaries built in an external module that requires the package through a replace directive, one per link set: {}, {crypto}, {crypto/sha512}, {crypto/md5, hash/crc32}, {crypto/sha256}; each calls HashToGroup, EncodeToGroup, HashToScalar on two inputs and must exit 0 with the oracle's bytes; 2-class abstraction of 'all programs' (SHA-256 registered by someone else / by nobody), the minimal program being the worst case because registration is monotone in the link set; non-trivial = programs in which nothing else registers SHA-256")
+	r.Rule("plain (non-test) binaries built in an external module that requires the package through a replace directive, one per configuration of the rest of the program: link sets {}, {crypto}, {crypto/sha512}, {crypto/md5, hash/crc32}, {crypto/sha256}, and programs that register their own SHA-256 (a wrapper exposing only the hash.Hash methods) with crypto.RegisterHash before resp. after the library's initialisation; each calls HashToGroup, EncodeToGroup, HashToScalar on two inputs and must exit 0 with the oracle's bytes; 3-class abstraction of 'all programs' (SHA-256 registered by nobody else / by the standard library / by the program itself), the minimal program being the worst case of the first class because registration is monotone in the link set; non-trivial = programs other than the one that imports crypto/sha256 itself")
 	r.Bound("programs", len(c17Programs))
 	r.Bound("calls_per_program", 3*len(c17Inputs))
 
@@ -132,7 +171,7 @@ func C17(r *ev.Report) {
 		r.Transitions.Add(int64(3 * len(c17Inputs)))
 		r.States.Add(1)
 
-		if p.class == "nobody else registers SHA-256" {
+		if p.class != "someone else registers SHA-256" {
 			r.Distinct.Add(1)
 		}
 
